@@ -174,7 +174,7 @@ theorem ctor_via_generic (L : Layout) (hmem : L ∈ Gen.Nas.layouts)
   exact ⟨bs, by simp [Ctor.encodeWith, hmodel, henc], by rw [hparse, hto]⟩
 
 section
-open Stgutg.Gen.Nas
+open Stgutg.Gen.Nas Stgutg.Gen
 
 /-- `GetPduSessionEstablishmentRequest`: every PDU session identity; PTI 1, IPv4, full integrity data rates, the PCO -/
 theorem C09_ctor_establishmentRequest : ∀ psi < 256, ctorParses layout_PDUSessionEstablishmentRequest
@@ -300,6 +300,317 @@ theorem C09_ctor_securityModeComplete (nmc : Option Bytes) (h : ∀ c, nmc = som
       (by rw [hsk]; rfl) w hw (Intended.securityModeComplete (some c))
       (by simp [toSpec, layout_SecurityModeComplete, mandToSpec, optToSpec, Intended.securityModeComplete, Intended.present])
     exact ⟨bs, hw, h1, h2⟩
+
+/-- `GetAuthenticationResponse`: a 16-octet RES* → authentication response parameter; otherwise a non-empty EAP message
+    → EAP message IE; otherwise the bare message -/
+theorem C09_ctor_authenticationResponse (param eap : Bytes)
+    (h : param.length = 16 ∨ (param = [] ∧ eap.length < 65536)) :
+    ∃ w bs, wireOf layout_AuthenticationResponse = some w ∧
+      Ctor.encodeWith layout_AuthenticationResponse (Ctor.authenticationResponse param eap) = .ok bs ∧
+      parse w bs = some (Intended.authenticationResponse (if param = [] then none else some param)
+        (if param = [] ∧ eap ≠ [] then some eap else none)) := by
+  have hbase : Ctor.authenticationResponseBase
+      = .ok [some ⟨0, 0, [0x7E]⟩, some ⟨0, 0, [0x00]⟩, some ⟨0, 0, [0x57]⟩, none, none] := by decide +kernel
+  obtain ⟨w, hw⟩ : ∃ w, wireOf layout_AuthenticationResponse = some w :=
+    Option.isSome_iff_exists.mp (by decide +kernel)
+  refine ⟨w, ?_⟩
+  have hsk : skipOf layout_AuthenticationResponse = [] := by decide +kernel
+  rcases h with h16 | ⟨hp, he⟩
+  · have hne : param ≠ [] := by intro h; simp [h] at h16
+    obtain ⟨bs, h1, h2⟩ := ctor_via_generic layout_AuthenticationResponse (by simp [Gen.Nas.layouts]) (by decide +kernel)
+      (Ctor.authenticationResponse param eap)
+      [some ⟨0, 0, [0x7E]⟩, some ⟨0, 0, [0x00]⟩, some ⟨0, 0, [0x57]⟩, some ⟨0x2D, 16, param⟩, none]
+      (by simp [Ctor.authenticationResponse, hbase, h16, Ctor.setP, Ctor.setLen, newVal, sh_AuthenticationResponseParameter,
+            Shape.zero, Body.size, idx_AuthenticationResponse_AuthenticationResponseParameter]
+          rw [show param.take 16 = param by rw [← h16]; simp]
+          exact copyInto_same 16 param h16)
+      (by simp [specWF, msgWF, mandValsOK, optValsOK, specValsOK, layout_AuthenticationResponse, mandValOK, optValOK,
+            specValOK, lenFits, sh_ExtendedProtocolDiscriminator, sh_SpareHalfOctetAndSecurityHeaderType,
+            sh_AuthenticationResponseMessageIdentity, sh_AuthenticationResponseParameter, Body.size, h16, allZero,
+            show param.drop 16 = [] from List.drop_eq_nil_of_le (by omega)])
+      (by rw [hsk]; rfl) w hw
+      (Intended.authenticationResponse (if param = [] then none else some param) (if param = [] ∧ eap ≠ [] then some eap else none))
+      (by simp [toSpec, layout_AuthenticationResponse, mandToSpec, optToSpec, Intended.authenticationResponse,
+            Intended.present, hne]
+          rw [← h16]; simp)
+    exact ⟨bs, hw, h1, h2⟩
+  · subst hp
+    by_cases hemp : eap = []
+    · subst hemp
+      obtain ⟨bs, h1, h2⟩ := ctor_via_generic layout_AuthenticationResponse (by simp [Gen.Nas.layouts]) (by decide +kernel)
+        (Ctor.authenticationResponse [] [])
+        [some ⟨0, 0, [0x7E]⟩, some ⟨0, 0, [0x00]⟩, some ⟨0, 0, [0x57]⟩, none, none]
+        (by simp [Ctor.authenticationResponse, hbase])
+        (by decide +kernel) (by rw [hsk]; rfl) w hw
+        (Intended.authenticationResponse (if ([] : Bytes) = [] then none else some []) (if ([] : Bytes) = [] ∧ ([] : Bytes) ≠ [] then some [] else none))
+        (by simp [toSpec, layout_AuthenticationResponse, mandToSpec, Intended.authenticationResponse, Intended.present])
+      exact ⟨bs, hw, h1, h2⟩
+    · have hpos : eap.length > 0 := by
+        cases eap with
+        | nil => exact absurd rfl hemp
+        | cons _ _ => simp
+      obtain ⟨bs, h1, h2⟩ := ctor_via_generic layout_AuthenticationResponse (by simp [Gen.Nas.layouts]) (by decide +kernel)
+        (Ctor.authenticationResponse [] eap)
+        [some ⟨0, 0, [0x7E]⟩, some ⟨0, 0, [0x00]⟩, some ⟨0, 0, [0x57]⟩, none, some ⟨0x78, eap.length, eap⟩]
+        (by simp [Ctor.authenticationResponse, hbase, hpos, Ctor.setP,
+              Ctor.bufIE_eq sh_EAPMessage 0x78 65536 eap _ rfl rfl (by omega) he, idx_AuthenticationResponse_EAPMessage])
+        (by simp [specWF, msgWF, mandValsOK, optValsOK, specValsOK, layout_AuthenticationResponse, mandValOK, optValOK,
+              specValOK, lenFits, sh_ExtendedProtocolDiscriminator, sh_SpareHalfOctetAndSecurityHeaderType,
+              sh_AuthenticationResponseMessageIdentity, sh_EAPMessage, Body.size, he])
+        (by rw [hsk]; rfl) w hw
+        (Intended.authenticationResponse (if ([] : Bytes) = [] then none else some []) (if ([] : Bytes) = [] ∧ eap ≠ [] then some eap else none))
+        (by simp [toSpec, layout_AuthenticationResponse, mandToSpec, optToSpec, Intended.authenticationResponse,
+              Intended.present, hemp])
+      exact ⟨bs, hw, h1, h2⟩
+
+/-- `GetDeregistrationRequest`: access type, switch-off flag, re-registration not required, native key set identifier
+    (even identifiers: the emulator passes 4; odd ones are F25), the mobile identity contents -/
+theorem C09_ctor_deregistrationRequest (acc sw ksi : Nat) (mi : Val) (ha : acc < 4) (hs : sw < 2) (hk : ksi < 8)
+    (hev : ksi % 2 = 0) (hl : mi.len = mi.data.length) (hlt : mi.data.length < 65536) :
+    ∃ w bs, wireOf layout_DeregistrationRequestUEOriginatingDeregistration = some w ∧
+      Ctor.encodeWith layout_DeregistrationRequestUEOriginatingDeregistration
+        (Ctor.deregistrationRequest (UInt8.ofNat acc) (UInt8.ofNat sw) (UInt8.ofNat ksi) mi) = .ok bs ∧
+      parse w bs = some (Intended.deregistrationRequest acc sw ksi mi.data) := by
+  have hbase := deregBase_eval acc ha sw hs (ksi / 2) (by omega)
+  rw [show 2 * (ksi / 2) = ksi by omega] at hbase
+  obtain ⟨w, hw⟩ : ∃ w, wireOf layout_DeregistrationRequestUEOriginatingDeregistration = some w :=
+    Option.isSome_iff_exists.mp (by decide +kernel)
+  refine ⟨w, ?_⟩
+  have hsk : skipOf layout_DeregistrationRequestUEOriginatingDeregistration = [] := by decide +kernel
+  obtain ⟨bs, h1, h2⟩ := ctor_via_generic layout_DeregistrationRequestUEOriginatingDeregistration
+    (by simp [Gen.Nas.layouts]) (by decide +kernel)
+    (Ctor.deregistrationRequest (UInt8.ofNat acc) (UInt8.ofNat sw) (UInt8.ofNat ksi) mi)
+    [some ⟨0, 0, [0x7E]⟩, some ⟨0, 0, [0x00]⟩, some ⟨0, 0, [0x45]⟩,
+     some ⟨0, 0, Intended.halves (Intended.deregType sw 0 acc) (Intended.ngKSI 0 ksi)⟩, some ⟨0, mi.data.length, mi.data⟩]
+    (by simp [Ctor.deregistrationRequest, hbase, Ctor.updF, Ctor.ok1, Ctor.setContents, Ctor.setLenBuf,
+          idx_DeregistrationRequestUEOriginatingDeregistration_MobileIdentity5GS, hl, Ctor.copyInto_replicate])
+    (by simp [specWF, msgWF, mandValsOK, optValsOK, specValsOK, layout_DeregistrationRequestUEOriginatingDeregistration,
+          mandValOK, specValOK, lenFits, sh_ExtendedProtocolDiscriminator, sh_SpareHalfOctetAndSecurityHeaderType,
+          sh_DeregistrationRequestMessageIdentity, sh_NgksiAndDeregistrationType, sh_MobileIdentity5GS, Body.size, hlt,
+          Intended.halves])
+    (by rw [hsk]; rfl) w hw (Intended.deregistrationRequest acc sw ksi mi.data)
+    (by simp [toSpec, layout_DeregistrationRequestUEOriginatingDeregistration, mandToSpec, Intended.deregistrationRequest])
+  exact ⟨bs, hw, h1, h2⟩
+/-- a buffer IE struct argument that denotes (iei, value) -/
+def bufArgOK (iei w : Nat) (v : Option Val) : Prop :=
+  ∀ x, v = some x → x.iei = iei ∧ x.len = x.data.length ∧ x.data.length < w
+
+set_option maxHeartbeats 1600000 in
+theorem C09_ctor_registrationRequest (rt : Nat) (mi : Val) (nssai sec cap : Option Val) (nmc : Option Bytes) (uds : Option Val)
+    (hrt : rt < 8) (hmi : mi.iei = 0 ∧ mi.len = mi.data.length ∧ mi.data.length < 65536)
+    (hn : bufArgOK 0x2F 256 nssai) (hs : bufArgOK 0x2E 256 sec) (hu : bufArgOK 0x40 256 uds)
+    (hc : ∀ x, cap = some x → x.iei = 0x10 ∧ x.len ≤ 13 ∧ x.data.length = 13 ∧ allZero (x.data.drop x.len) = true)
+    (hm : ∀ c, nmc = some c → c.length < 65536) :
+    ∃ w bs, wireOf layout_RegistrationRequest = some w ∧
+      Ctor.encodeWith layout_RegistrationRequest
+        (Ctor.registrationRequest (UInt8.ofNat rt) mi nssai sec cap nmc uds) = .ok bs ∧
+      parse w bs = some (Intended.registrationRequest rt mi.data (nssai.map (·.data)) (sec.map (·.data))
+        (cap.map fun x => x.data.take x.len) nmc (uds.map (·.data))) := by
+  have hbase := regReqBase_eval rt hrt
+  obtain ⟨w, hw⟩ : ∃ w, wireOf layout_RegistrationRequest = some w :=
+    Option.isSome_iff_exists.mp (by decide +kernel)
+  have hwo : w.opt = (((tableByName "RegistrationRequest").bind (·.wire)).map (·.opt)).getD [] := by
+    have : wireOf layout_RegistrationRequest = (tableByName "RegistrationRequest").bind (·.wire) := by decide +kernel
+    rw [← this, hw]; rfl
+  refine ⟨w, ?_⟩
+  have hsk : skipOf layout_RegistrationRequest = [9] := by decide +kernel
+  obtain ⟨hmi1, hmi2, hmi3⟩ := hmi
+  let msg : Msg :=
+    [some ⟨0, 0, [0x7E]⟩, some ⟨0, 0, [0x00]⟩, some ⟨0, 0, [0x41]⟩,
+     some ⟨0, 0, Intended.halves (Intended.regType 1 rt) (Intended.ngKSI 0 7)⟩, some mi,
+     none, cap, sec, nssai, none, none, uds, none, none, none, none, none, none, none, none, none, none, none, none,
+     nmc.map fun c => ⟨0x71, c.length, c⟩]
+  have hmodel : Ctor.registrationRequest (UInt8.ofNat rt) mi nssai sec cap nmc uds = .ok msg := by
+    cases nmc with
+    | none => simp [msg, Ctor.registrationRequest, hbase, regBaseMsg, Ctor.setP, idx_RegistrationRequest_MobileIdentity5GS,
+        idx_RegistrationRequest_UESecurityCapability, idx_RegistrationRequest_Capability5GMM, idx_RegistrationRequest_RequestedNSSAI,
+        idx_RegistrationRequest_UplinkDataStatus, List.replicate]
+    | some c => simp [msg, Ctor.registrationRequest, hbase, regBaseMsg, Ctor.setP, idx_RegistrationRequest_MobileIdentity5GS,
+        idx_RegistrationRequest_UESecurityCapability, idx_RegistrationRequest_Capability5GMM, idx_RegistrationRequest_RequestedNSSAI,
+        idx_RegistrationRequest_UplinkDataStatus, idx_RegistrationRequest_NASMessageContainer, List.replicate,
+        Ctor.bufIE_eq sh_NASMessageContainer 0x71 65536 c _ rfl rfl (by omega) (hm c rfl)]
+  have hskips : skips msg (skipOf layout_RegistrationRequest) = true := by rw [hsk]; simp [skips, msg]
+  have hwf : specWF layout_RegistrationRequest msg = true := by
+    simp only [specWF, msgWF, Bool.and_eq_true, beq_iff_eq]
+    refine ⟨⟨⟨⟨?_, ?_⟩, ?_⟩, ?_⟩, ?_⟩
+    · rfl
+    · simp [msg, layout_RegistrationRequest, mandValsOK, mandValOK, lenFits, sh_ExtendedProtocolDiscriminator,
+        sh_SpareHalfOctetAndSecurityHeaderType, sh_RegistrationRequestMessageIdentity, sh_NgksiAndRegistrationType5GS,
+        sh_MobileIdentity5GS, Body.size, Intended.halves, hmi1, hmi2, hmi3]
+    · simp [msg, layout_RegistrationRequest, optValsOK]
+      refine ⟨?_, ?_, ?_, ?_, ?_⟩
+      · cases cap with
+        | none => rfl
+        | some x =>
+          obtain ⟨a, b, c, d⟩ := hc x rfl
+          simp [optValOK, lenFits, sh_Capability5GMM, Body.size, a, b, c, d]; omega
+      · cases sec with
+        | none => rfl
+        | some x => obtain ⟨a, b, c⟩ := hs x rfl; simp [optValOK, lenFits, sh_UESecurityCapability, a, b, c]
+      · cases nssai with
+        | none => rfl
+        | some x => obtain ⟨a, b, c⟩ := hn x rfl; simp [optValOK, lenFits, sh_RequestedNSSAI, a, b, c]
+      · cases uds with
+        | none => rfl
+        | some x => obtain ⟨a, b, c⟩ := hu x rfl; simp [optValOK, lenFits, sh_UplinkDataStatus, a, b, c]
+      · cases nmc with
+        | none => rfl
+        | some c => simp [optValOK, lenFits, sh_NASMessageContainer, hm c rfl]
+    · simp [msg, layout_RegistrationRequest, specValsOK, specValOK]
+    · simp [msg, layout_RegistrationRequest, specValsOK, specValOK]
+      refine ⟨?_, ?_, ?_, ?_, ?_⟩ <;> (split <;> rfl)
+  have hto : toSpec layout_RegistrationRequest w msg = Intended.registrationRequest rt mi.data (nssai.map (·.data)) (sec.map (·.data))
+        (cap.map fun x => x.data.take x.len) nmc (uds.map (·.data)) := by
+    simp [msg, toSpec, layout_RegistrationRequest, mandToSpec, Intended.registrationRequest, List.filterMap_cons]
+    cases cap <;> cases sec <;> cases nssai <;> cases uds <;> cases nmc <;>
+      simp [optToSpec, Intended.present]
+  obtain ⟨bs, h1, h2⟩ := ctor_via_generic layout_RegistrationRequest (by simp [Gen.Nas.layouts]) (by decide +kernel)
+    _ msg hmodel hwf hskips w hw _ hto
+  exact ⟨bs, hw, h1, h2⟩
+/-- the shared UL NAS TRANSPORT wrapper with request type, DNN and S-NSSAI: for every payload below 64 KiB, PDU session
+    identity, request type value, single-label DNN of at most 99 octets (or none) and S-NSSAI with SST and 3-octet SD
+    (or none), the bytes parse to: EPD 5GMM, plain, UL NAS TRANSPORT, payload container type N1 SM information, the
+    payload, PDU session ID, request type, S-NSSAI (SST ‖ SD), DNN (length-prefixed label) -/
+theorem C09_ctor_ulNasTransport (payload : Bytes) (psi rt : Nat) (dnn : Bytes) (sn : Option (Nat × UInt8 × UInt8 × UInt8))
+    (hpsi : psi < 256) (hrt : rt < 8) (hp : payload.length < 65536)
+    (hd : dnn.length ≤ 99 ∧ ∀ c ∈ dnn, c ≠ 0x2E) (hs : ∀ x, sn = some x → x.1 < 256) :
+    ∃ w bs, wireOf layout_ULNASTransport = some w ∧
+      Ctor.encodeWith layout_ULNASTransport (Ctor.ulNasTransport payload (UInt8.ofNat psi) true (UInt8.ofNat rt) dnn
+        (sn.map fun x => ⟨UInt8.ofNat x.1, [x.2.1, x.2.2.1, x.2.2.2]⟩)) = .ok bs ∧
+      parse w bs = some (Intended.ulNasTransport payload psi (some rt) dnn
+        (sn.map fun x => (x.1, [x.2.1, x.2.2.1, x.2.2.2]))) := by
+  obtain ⟨w, hw⟩ : ∃ w, wireOf layout_ULNASTransport = some w := Option.isSome_iff_exists.mp (by decide +kernel)
+  refine ⟨w, ?_⟩
+  have hsk : skipOf layout_ULNASTransport = [] := by decide +kernel
+  have hwo : w.opt.find? (fun x => x.iei == 0x12) = some ⟨0x12, .tv 1, 1, some 1⟩ := by
+    have : (wireOf layout_ULNASTransport).map (fun w => w.opt.find? (fun x => x.iei == 0x12)) = some (some ⟨0x12, .tv 1, 1, some 1⟩) := by
+      decide +kernel
+    rw [hw] at this; simpa using this
+  let snIE : Option Val := sn.map fun x => ⟨0x22, 4, [UInt8.ofNat x.1, x.2.1, x.2.2.1, x.2.2.2, 0, 0, 0, 0]⟩
+  let dnnIE : Option Val := if dnn.isEmpty then none else some (Ctor.ulDnnIE dnn)
+  let msg : Msg :=
+    [some ⟨0, 0, [0x7E]⟩, some ⟨0, 0, [0x00]⟩, some ⟨0, 0, [0x67]⟩, some ⟨0, 0, [0x01]⟩, some ⟨0, payload.length, payload⟩,
+     some ⟨0x12, 0, [UInt8.ofNat psi]⟩, none, some ⟨0, 0, [UInt8.ofNat (0x80 + rt)]⟩, snIE, dnnIE, none]
+  have hmodel : Ctor.ulNasTransport payload (UInt8.ofNat psi) true (UInt8.ofNat rt) dnn
+        (sn.map fun x => ⟨UInt8.ofNat x.1, [x.2.1, x.2.2.1, x.2.2.2]⟩) = .ok msg := by
+    simp only [Ctor.ulNasTransport, ulHead_eval psi hpsi, ulRequestType_eval rt hrt, if_true]
+    cases sn with
+    | none =>
+      by_cases hde : dnn.isEmpty = true
+      · simp [hde, Ctor.setP, idx_ULNASTransport_RequestType]
+        rw [ulTail_eval _ payload (by rfl) (by rfl) hp]
+        simp [msg, snIE, dnnIE, hde]
+      · simp [hde, Ctor.setP, idx_ULNASTransport_RequestType, idx_ULNASTransport_DNN]
+        rw [ulTail_eval _ payload (by rfl) (by rfl) hp]
+        simp [msg, snIE, dnnIE, hde]
+    | some x =>
+      by_cases hde : dnn.isEmpty = true
+      · simp [hde, Ctor.setP, idx_ULNASTransport_RequestType, ulSnssai_eval, idx_ULNASTransport_SNSSAI]
+        rw [ulTail_eval _ payload (by rfl) (by rfl) hp]
+        simp [msg, snIE, dnnIE, hde]
+      · simp [hde, Ctor.setP, idx_ULNASTransport_RequestType, idx_ULNASTransport_DNN, ulSnssai_eval, idx_ULNASTransport_SNSSAI]
+        rw [ulTail_eval _ payload (by rfl) (by rfl) hp]
+        simp [msg, snIE, dnnIE, hde]
+  have hskips : skips msg (skipOf layout_ULNASTransport) = true := by rw [hsk]; rfl
+  have hrt8 : (UInt8.ofNat (0x80 + rt)).toNat / 16 = 8 := by
+    rw [toNat_ofNat_lt (by omega)]; omega
+  have hwf : specWF layout_ULNASTransport msg = true := by
+    simp only [specWF, msgWF, Bool.and_eq_true, beq_iff_eq]
+    refine ⟨⟨⟨⟨?_, ?_⟩, ?_⟩, ?_⟩, ?_⟩
+    · rfl
+    · simp [msg, layout_ULNASTransport, mandValsOK, mandValOK, lenFits, sh_ExtendedProtocolDiscriminator,
+        sh_SpareHalfOctetAndSecurityHeaderType, sh_ULNASTRANSPORTMessageIdentity, sh_SpareHalfOctetAndPayloadContainerType,
+        sh_PayloadContainer, Body.size, hp]
+    · simp [msg, layout_ULNASTransport, optValsOK]
+      refine ⟨?_, ?_, ?_, ?_⟩
+      · simp [optValOK, sh_PduSessionID2Value, Body.size]
+      · simp [optValOK]; omega
+      · cases sn with
+        | none => rfl
+        | some x => simp [snIE, optValOK, lenFits, sh_SNSSAI, Body.size, allZero]
+      · by_cases hde : dnn.isEmpty = true
+        · simp [dnnIE, hde]
+        · simp [dnnIE, hde, optValOK, lenFits, sh_DNN, Ctor.ulDnnIE]
+          omega
+    · simp [msg, layout_ULNASTransport, specValsOK, specValOK]
+    · simp [msg, layout_ULNASTransport, specValsOK, specValOK]
+      refine ⟨?_, ?_⟩ <;> (split <;> rfl)
+  have hto : toSpec layout_ULNASTransport w msg = Intended.ulNasTransport payload psi (some rt) dnn
+        (sn.map fun x => (x.1, [x.2.1, x.2.2.1, x.2.2.2])) := by
+    have hrtv : UInt8.ofNat ((UInt8.ofNat (0x80 + rt)).toNat % 16) = Intended.u8 (rt % 8) := by
+      rw [toNat_ofNat_lt (by omega)]
+      simp only [Intended.u8]
+      congr 1; omega
+    simp [msg, toSpec, layout_ULNASTransport, mandToSpec, Intended.ulNasTransport, Intended.halves, Intended.u8,
+      List.filterMap_cons, optToSpec, hwo]
+    refine ⟨?_, ?_⟩
+    · simpa [Intended.u8] using hrtv
+    · cases sn with
+      | none =>
+        by_cases hde : dnn = []
+        · simp [snIE, dnnIE, hde]
+        · simp [snIE, dnnIE, hde, optToSpec, Ctor.ulDnnIE, dnnLabels_nodot dnn hd.2, Intended.u8]
+      | some x =>
+        by_cases hde : dnn = []
+        · simp [snIE, dnnIE, hde, optToSpec, Intended.u8]
+        · simp [snIE, dnnIE, hde, optToSpec, Ctor.ulDnnIE, dnnLabels_nodot dnn hd.2, Intended.u8]
+  obtain ⟨bs, h1, h2⟩ := ctor_via_generic layout_ULNASTransport (by simp [Gen.Nas.layouts]) (by decide +kernel)
+    _ msg hmodel hwf hskips w hw _ hto
+  exact ⟨bs, hw, h1, h2⟩
+
+/-- what the three wrapped 5GSM constructors put into the payload container -/
+theorem ul_inner_eval : ∀ psi < 256,
+    Ctor.encodeWith layout_PDUSessionEstablishmentRequest (Ctor.pduSessionEstablishmentRequest (UInt8.ofNat psi)) =
+      .ok ([0x2E, UInt8.ofNat psi, 0x01, 0xC1, 0xFF, 0xFF, 0x91, 0x7B, 0x00, 0x0A] ++ Intended.pco) ∧
+    Ctor.encodeWith layout_PDUSessionModificationRequest (Ctor.pduSessionModificationRequest (UInt8.ofNat psi)) =
+      .ok [0x2E, UInt8.ofNat psi, 0x00, 0xC9] ∧
+    Ctor.encodeWith layout_PDUSessionReleaseComplete (Ctor.pduSessionReleaseComplete (UInt8.ofNat psi)) =
+      .ok [0x2E, UInt8.ofNat psi, 0x00, 0xD4] := by
+  decide +kernel
+
+/-- the establishment request inside the container is the standard's encoding of the intended inner message -/
+theorem ul_inner_establishment_spec : ∀ psi < 256,
+    ((tableByName "PDUSessionEstablishmentRequest").bind (·.wire)).bind
+        (Spec.Ts24501.encode · (Intended.pduSessionEstablishmentRequest psi 1)) =
+      some ([0x2E, UInt8.ofNat psi, 0x01, 0xC1, 0xFF, 0xFF, 0x91, 0x7B, 0x00, 0x0A] ++ Intended.pco) := by
+  decide +kernel
+
+/-- `GetUlNasTransport_PduSessionEstablishmentRequest` -/
+theorem C09_ctor_ulEstablishment (psi rt : Nat) (dnn : Bytes) (sn : Option (Nat × UInt8 × UInt8 × UInt8))
+    (hpsi : psi < 256) (hrt : rt < 8) (hd : dnn.length ≤ 99 ∧ ∀ c ∈ dnn, c ≠ 0x2E) (hs : ∀ x, sn = some x → x.1 < 256) :
+    ∃ w bs, wireOf layout_ULNASTransport = some w ∧
+      Ctor.encodeWith layout_ULNASTransport (Ctor.ulEstablishment (UInt8.ofNat psi) (UInt8.ofNat rt) dnn
+        (sn.map fun x => ⟨UInt8.ofNat x.1, [x.2.1, x.2.2.1, x.2.2.2]⟩)) = .ok bs ∧
+      parse w bs = some (Intended.ulNasTransport
+        ([0x2E, UInt8.ofNat psi, 0x01, 0xC1, 0xFF, 0xFF, 0x91, 0x7B, 0x00, 0x0A] ++ Intended.pco) psi (some rt) dnn
+        (sn.map fun x => (x.1, [x.2.1, x.2.2.1, x.2.2.2]))) := by
+  have h := (ul_inner_eval psi hpsi).1
+  simp only [Ctor.ulEstablishment, h]
+  exact C09_ctor_ulNasTransport _ psi rt dnn sn hpsi hrt (by simp [Intended.pco]) hd hs
+
+/-- `GetUlNasTransport_PduSessionModificationRequest`: as intended except for the PTI 0 of the inner message (F19) -/
+theorem C09_ctor_ulModification_partial (psi rt : Nat) (dnn : Bytes) (sn : Option (Nat × UInt8 × UInt8 × UInt8))
+    (hpsi : psi < 256) (hrt : rt < 8) (hd : dnn.length ≤ 99 ∧ ∀ c ∈ dnn, c ≠ 0x2E) (hs : ∀ x, sn = some x → x.1 < 256) :
+    ∃ w bs, wireOf layout_ULNASTransport = some w ∧
+      Ctor.encodeWith layout_ULNASTransport (Ctor.ulModification (UInt8.ofNat psi) (UInt8.ofNat rt) dnn
+        (sn.map fun x => ⟨UInt8.ofNat x.1, [x.2.1, x.2.2.1, x.2.2.2]⟩)) = .ok bs ∧
+      parse w bs = some (Intended.ulNasTransport [0x2E, UInt8.ofNat psi, 0x00, 0xC9] psi (some rt) dnn
+        (sn.map fun x => (x.1, [x.2.1, x.2.2.1, x.2.2.2]))) := by
+  have h := (ul_inner_eval psi hpsi).2.1
+  simp only [Ctor.ulModification, h]
+  exact C09_ctor_ulNasTransport _ psi rt dnn sn hpsi hrt (by simp) hd hs
+
+/-- `GetUlNasTransport_PduSessionReleaseComplete`: as intended except for the PTI 0 of the inner message (F19) -/
+theorem C09_ctor_ulReleaseComplete_partial (psi rt : Nat) (dnn : Bytes) (sn : Option (Nat × UInt8 × UInt8 × UInt8))
+    (hpsi : psi < 256) (hrt : rt < 8) (hd : dnn.length ≤ 99 ∧ ∀ c ∈ dnn, c ≠ 0x2E) (hs : ∀ x, sn = some x → x.1 < 256) :
+    ∃ w bs, wireOf layout_ULNASTransport = some w ∧
+      Ctor.encodeWith layout_ULNASTransport (Ctor.ulReleaseComplete (UInt8.ofNat psi) (UInt8.ofNat rt) dnn
+        (sn.map fun x => ⟨UInt8.ofNat x.1, [x.2.1, x.2.2.1, x.2.2.2]⟩)) = .ok bs ∧
+      parse w bs = some (Intended.ulNasTransport [0x2E, UInt8.ofNat psi, 0x00, 0xD4] psi (some rt) dnn
+        (sn.map fun x => (x.1, [x.2.1, x.2.2.1, x.2.2.2]))) := by
+  have h := (ul_inner_eval psi hpsi).2.2
+  simp only [Ctor.ulReleaseComplete, h]
+  exact C09_ctor_ulNasTransport _ psi rt dnn sn hpsi hrt (by simp) hd hs
 
 end
 
